@@ -278,7 +278,7 @@ class Check(Property):
         if s == "dimensionless":
             return v
         # membership agrees with resolution: `s in ureg` is never True for a string get_name refuses
-        if cs:
+        if cs and s.isidentifier():        # (`in` parses an expression: "h%s" is h * percent * s; single names only here)
             try:
                 if (s in u) and got is None:
                     v.append(f"{pre}: `in` says the registry knows it, get_name raises {err}")
